@@ -73,7 +73,14 @@ def check_factor_generators(prog: Program, rep: Report) -> None:
         a = param_names(g)[0]
         loc = Loc(FTM, g.lineno, f"_FactorTypeMap.{g.name}")
         ys = [n for n in ast.walk(g) if isinstance(n, ast.Yield)]
-        inner = [n for n in ast.walk(g) if isinstance(n, ast.For) and f"self._map[{a}[1]]" in norm(n.iter)]
+        # the loop over the index sets filed under the active point mass's index: map[a[1]] or map.get(a[1], <empty>)
+        def index_sets(it: ast.AST) -> bool:
+            t = norm(it)
+            if t == f"self._map[{a}[1]]":
+                return True
+            return isinstance(it, ast.Call) and norm(it.func) == "self._map.get" and len(it.args) == 2 and norm(it.args[0]) == f"{a}[1]" \
+                and norm(it.args[1]) in ("()", "[]")
+        inner = [n for n in ast.walk(g) if isinstance(n, ast.For) and index_sets(n.iter)]
         rep.ob("R10.5-generator-shape", len(ys) == 1 and len(inner) == 1, loc, f"{g.name}: one tuple per index set containing the active index",
                "the generator must yield exactly one in-state per index set of the active point mass's index")
         if not ys:
@@ -174,7 +181,7 @@ def analyse(src: Source) -> List[Report]:
     rep.unit("config_files", len(cfgs))
     rep.expect_min("R10.1-excluded-is-nearby", 1)
     rep.expect_min("R10.1-bounding-is-complement", 1)
-    rep.expect_min("R10.2-far-field-domain", 3)
+    rep.expect_min("R10.2-far-field-domain", 2)
     rep.expect_min("R10.3-far-field", 8)
     rep.expect_min("R1.2-mirror-closed", 8)
     rep.expect_min("R1.2-label-resolves", 35)
